@@ -40,7 +40,7 @@ type c02Cash struct {
 	Render  int    `json:"render"`  // 0 bare lower, 1 bare UPPER, 2 prefix:lower, 3 PREFIX:UPPER, 4 prefix:UPPER (mixed), 5 bare MiXed
 }
 
-var c02Prefixes = []string{"bitcoincash", "bchtest", "bchreg", "bchsim", "simpleledger", "slptest", "slpreg", "foo"}
+var c02Prefixes = []string{"bitcoincash", "bchtest", "bchreg", "bchsim", "simpleledger", "slptest", "slpreg", "foo", "bchfork", "slpfork"}
 
 func (cas c02Cash) build() (s string, prefixed string) {
 	body := []byte{byte(cas.Version)}
@@ -337,10 +337,10 @@ func (cas c02Legacy) build() string {
 	return ref.B58Encode(append(b, ck[:4]...))
 }
 
-// c02Nets: the six built-in networks and the custom-registered one
+// c02Nets: the six built-in networks, the custom-registered one and the unregistered sibling of the main network
 func c02Nets() []ref.Net {
 	registerCustomNet()
-	return append(append([]ref.Net{}, ref.Nets...), customNet)
+	return append(append([]ref.Net{}, ref.Nets...), customNet, siblingNet)
 }
 
 func c02EvalLegacy(w *mc.W, cas c02Legacy) {
@@ -532,10 +532,12 @@ func runC02(c *mc.Ctx) {
 	nNets, nPref := len(ref.Nets), len(c02Prefixes)
 	// testnet4 and chipnet carry exactly testnet3's prefixes and version bytes; the quick tier
 	// runs the CashAddr family on the four distinct parameter sets only
-	cashNets := ref.Nets
+	cashNets := append(append([]ref.Net{}, ref.Nets...), siblingNet)
 	if c.Quick() {
-		cashNets = []ref.Net{ref.Nets[0], ref.Nets[1], ref.Nets[4], ref.Nets[5]}
+		cashNets = []ref.Net{ref.Nets[0], ref.Nets[1], ref.Nets[4], ref.Nets[5], siblingNet}
 	}
+	// (siblingNet: the main network's magic and version bytes under other prefixes, see common.go; the
+	// main network's prefixes are foreign to it and vice versa, whichever of the two was decoded first)
 	dims := []int{len(cashNets), nPref, 256, 66, len(fills), len(pads), len(renders), 2}
 	total := int64(1)
 	for _, d := range dims {
@@ -562,6 +564,28 @@ func runC02(c *mc.Ctx) {
 		c02EvalCash(w, cas)
 	})
 	c.Sample("cash", c02Cash{Net: "mainnet", Prefix: "bitcoincash", Version: 0x10, Len: 20, Fill: 1, Pad: 0, Render: 0})
+	// which parameter set was decoded FIRST in the process: every ordered pair (and both renderings:
+	// prefixed, bare) over {main network, its sibling} x {the main network's prefix, the sibling's},
+	// each pair in a process of its own (inside the long-lived check process the order is whatever
+	// the workers make it)
+	{
+		var menu []mc.KindCase
+		for _, n := range []string{"mainnet", siblingNet.Name} {
+			for _, p := range []string{"bitcoincash", siblingNet.CashPrefix} {
+				for _, r := range []int{0, 3} {
+					menu = append(menu, mc.KindCase{Kind: "cash", Case: c02Cash{Net: n, Prefix: p, Version: 0, Len: 20, Fill: 1, Pad: 0, Render: r}})
+				}
+			}
+		}
+		var seqs [][]mc.KindCase
+		for _, a := range menu {
+			for _, b := range menu {
+				seqs = append(seqs, []mc.KindCase{a, b})
+			}
+		}
+		c.Space("ordered pairs of decodes over {main network, sibling parameters} x {their two prefixes} x {prefixed, bare}, each pair in a process of its own", int64(len(seqs)))
+		c.FreshSeqAll(seqs)
+	}
 
 	// (B) legacy
 	lnets := c02Nets() // the legacy family also runs on the custom-registered network
